@@ -167,6 +167,8 @@ pub struct Strategy {
 async fn run_validation(s: Strategy, seed: u64) -> [bool; 3] {
     let mut config = TestWorldConfig::default();
     config.seed = seed;
+    // the fixture's own 10 s limit would turn a deep batch on a busy machine into a panic
+    config.timeout = None;
     let world = TestWorld::new_with(&config);
     world
         .semi_honest((), |ctx, ()| async move {
@@ -233,13 +235,25 @@ fn run() {
             }
         }
     }
+    // honest batches at every proof-recursion depth: the number of recursive proofs grows by one each
+    // time the number of multiplications passes 3 * 4^k (k = 4..11 are 3, 12, 48, ... 49 152 blocks of 256);
+    // a batch on either side of every threshold must be accepted by all three helpers
+    let mut deep: Vec<usize> = Vec::new();
+    let mut thr = 3usize;
+    while thr <= 49_152 {
+        deep.extend([thr, thr + 1]);
+        thr *= 4;
+    }
+    for blocks in deep {
+        strategies.push(Strategy { blocks, cheater: 1, flip: None, u_mask: 0, v_mask: 0, doctor: Doctor::None });
+    }
     let results: Vec<Result<[bool; 3], String>> = rt.block_on(async {
         let mut out = Vec::new();
         for chunk in strategies.chunks(16) {
             out.extend(
                 futures::future::join_all(chunk.iter().map(|s| {
                     let s = *s;
-                    async move { futures::FutureExt::catch_unwind(std::panic::AssertUnwindSafe(run_validation(s, seed))).await.map_err(|_| "panic".to_string()) }
+                    async move { futures::FutureExt::catch_unwind(std::panic::AssertUnwindSafe(run_validation(s, seed))).await.map_err(|p| format!("panic: {}", p.downcast_ref::<String>().cloned().or_else(|| p.downcast_ref::<&str>().map(|s| (*s).to_string())).unwrap_or_default())) }
                 }))
                 .await,
             );
@@ -250,6 +264,7 @@ fn run() {
         r.inc("evaluations");
         let replay = json!({"part":"prover","strategy":{"blocks":s.blocks,"cheater":s.cheater,"flip":s.flip.map(|f| vec![f.0,f.1]),"u_mask":s.u_mask,"v_mask":s.v_mask,"doctor":format!("{:?}", s.doctor)}});
         match res {
+            Err(e) if s.flip.is_none() => r.violation("dzkp:honest-component-batch-panicked", &format!("{} blocks of consistent multiplications: {e}", s.blocks), replay),
             Err(e) => r.violation("dzkp:prover-strategy:panic", &format!("{s:?}: {e}"), replay),
             Ok(acc) => {
                 if s.flip.is_none() {
